@@ -27,7 +27,7 @@ func init() {
 			return 5000
 		},
 		Batches: func(t string) int { return 16 },
-		Rule:    "each case = one sequence of 1-20 packets (random protocol/sub-protocol/src/dest/ttl/ext hint+bytes, payload sizes biased to 0,1,bufio-buffer edges 4056/4066/4095/4096/4097,8192±1,65535/65536 and the maximum 1 MiB) written with the real PacketWriter and read back by the real PacketReader through a reader that hands out PRNG-sized chunks (1 byte / 1-16 / 1-5000 / whole / mixed) with occasional (0,nil) reads; then ~40-70 single-byte corruptions (every header byte, all 8 hash bytes, sampled payload bytes of one packet) each re-read from a fresh reader. Non-trivial = distinct (stream, chunk mode) with >=2 packets read through sub-packet chunks, or a distinct (stream, offset, value) corruption inside header/payload/hash.",
+		Rule:    "each case = one sequence of 1-20 packets (random protocol/sub-protocol/src/dest/ttl/ext hint+bytes incl. extensions longer than the 10-bit length field, payload sizes biased to 0,1,bufio-buffer edges 4056/4066/4095/4096/4097,8192±1,65535/65536 and the maximum 1 MiB) written with the real PacketWriter and read back by the real PacketReader through a reader that hands out PRNG-sized chunks (1 byte / 1-16 / 1-5000 / whole / mixed) with occasional (0,nil) reads; then ~40-70 single-byte corruptions (every header byte, all 8 hash bytes, sampled payload bytes of one packet) each re-read from a fresh reader. Non-trivial = distinct (stream, chunk mode) with >=2 packets read through sub-packet chunks, or a distinct (stream, offset, value) corruption inside header/payload/hash.",
 		MinNonTrivial: func(t string) int {
 			if t == ev.Thorough {
 				return 4000000
